@@ -11,8 +11,7 @@ def run(tier):
     quick = tier == "quick"
     plans = []
     for vc in ([0], [0, 2, -1]):
-        # own-value cost dicts do not survive the JSON wire format (C15 finding): wire mode only without them here
-        for wire in ((False, True) if vc == [0] else (False,)):
+        for wire in (False, True):
             plans.append(dict(algo="dpop", params={}, props=["quiet_fin", "opt"], shapes=SHAPES if quick else SHAPES + LARGE,
                               alpha=[0, 1, 3, -2, 7], vcalpha=vc, n=2 if quick else 6, scheds=3 if quick else 8, wire=wire,
                               policies=["random", "starts_first", "lag", "random"]))
